@@ -138,6 +138,10 @@ structure Spec (κ ν : Type) where
   gateCache : Bool
   /-- `true` = a failed run clears the input cache (`_run_exception`) -/
   clearOnFail : Bool
+  /-- composite policy (C06's subject; theorems hold for both values): `true` = as originally
+  pinned, the exception of a failing *starting* node escapes `Composite._on_run` at once;
+  `false` = it is collected like any other child's failure and the rest of the graph runs -/
+  startAbort : Bool
   /-- `output_column_map()`, total on the body outputs -/
   colmap : κ → κ
   /-- the body function, one uninterpreted symbol per output: arguments in `bodyInputs` order -/
@@ -296,6 +300,11 @@ def ndOuts (s : Spec κ ν) : Outs κ ν :=
   if s.asDf then .df none
   else .lists ((loopedInputs s).map (·, none) ++ s.outputs.map (fun o => (s.colmap o, none)))
 
+/-- lists form only: the column collector of a looped key that no index map mentions has no
+connection at all, so the DAG wiring makes it a *starting node*, which fails its readiness check -/
+def strandedCollector (s : Spec κ ν) (maps : List (Dict κ)) : Bool :=
+  !s.asDf && (s.zipOn ++ s.iterOn).any fun k => maps.all fun m => (dget m k).isNone
+
 structure St (κ ν : Type) where
   children : List (Child κ)
   outs : Outs κ ν
@@ -320,8 +329,12 @@ def run (s : Spec κ ν) (st : St κ ν) (cur : Cur κ ν) (order : List Nat) : 
     match indexMapsOf (dataOf cur) (some s.iterOn) (some s.zipOn) with
     | .error e => (st, .raised e)                                -- raised before anything is touched
     | .ok maps =>
-      -- (a collector that ends up without any connection is a starting node; its readiness
-      --  failure is collected like any other child's and the remaining graph still runs)
+      if s.startAbort && strandedCollector s maps then
+        -- the stranded collector's `ReadinessError` aborts the run before the signal loop
+        ({ children := build s maps st.children, outs := ndOuts s,
+           cached := if s.useCache && !s.clearOnFail then some cur else none }, .readiness)
+      else
+      -- (otherwise that failure is collected like any other child's and the rest still runs)
       let outs := evalOuts s cur maps order
       ({ children := build s maps st.children, outs,
          cached := if s.useCache && (outs.complete || !s.clearOnFail) then some cur else none },
